@@ -57,7 +57,107 @@ def units(tier, seed):
             us.append({"kind": "e2", "spec": spec, "rep": rep, "depth_off": 1, "L": 3 if rep == "stack" else 2, "K": 2 if tier == "quick" else 3,
                        "max_states": 25 if tier == "quick" else 80,
                        "max_execs_per_op": 60 if tier == "quick" else 300})
+    us += search_units(tier)
     return us
+
+
+def search_units(tier):
+    fam = G.general_family("quick")
+    sel = [s for s in fam if s["name"].split(":")[0] in ("S1", "S5", "S9", "S11", "S12", "S15")]
+    us = []
+    for spec in sel:
+        for rep in ("tree", "ge", "sge", "dsge", "stack"):
+            for algo in ("gp", "hc"):
+                us.append({"kind": "search", "spec": spec, "rep": rep, "algo": algo, "depth_off": 2,
+                           "max_dev": 1, "max_execs": 40 if tier == "quick" else 400})
+    return us
+
+
+def run_search(unit) -> UnitResult:
+    """What the user's fitness function receives during short real searches."""
+    from geneticengine.algorithms.gp.gp import GeneticProgramming
+    from geneticengine.algorithms.hill_climbing import HC
+    from geneticengine.evaluation.budget import EvaluationBudget
+    from geneticengine.problems import SingleObjectiveProblem
+    from mc.explorer import ExploreStats, explore, gene_domain
+    from checks.common import make_rep
+
+    r = UnitResult()
+    ctx = P.open_ctx(unit)
+    try:
+        if ctx.g is None:
+            return r
+        d = P.unit_depth(ctx)
+        rep_kind = unit["rep"]
+        skw = {}
+        if rep_kind == "stack":
+            skw = {"wide_domain": gene_domain(P.stack_alphabet(ctx.g))}
+        elif rep_kind in ("ge", "sge"):
+            skw = {"wide_domain": gene_domain(P.GENES)}
+        elif rep_kind == "dsge":
+            skw = {"wide_domain": gene_domain(P.GENES_DSGE)}
+        start_t = ["ref", ctx.spec["start"]]
+
+        def run(src):
+            got = []
+
+            def ff(p):
+                got.append(p)
+                return float(len(repr(p)) % 5)
+
+            rep = make_rep(rep_kind, ctx.g, src, d, gene_length=6)
+            problem = SingleObjectiveProblem(ff)
+            if unit["algo"] == "gp":
+                alg = GeneticProgramming(problem, EvaluationBudget(8), rep, random=src, population_size=4)
+            else:
+                alg = HC(problem, EvaluationBudget(6), rep, random=src, number_of_mutations=2)
+            checks = {"n": 0}
+            real = alg.is_done
+
+            def is_done():
+                checks["n"] += 1
+                if checks["n"] > 12:
+                    return True
+                return real()
+
+            alg.is_done = is_done
+            try:
+                alg.search()
+            finally:
+                run.got = got
+            return got
+
+        st = ExploreStats()
+        seen = set()
+        for ex in explore(run, max_dev=unit["max_dev"], max_execs=unit["max_execs"], horizon=6000, stats=st, source_kwargs=skw):
+            r.executions += 1
+            progs = getattr(run, "got", [])
+            if ex.exc is not None and not is_library_error(ex.exc):
+                r.add_violation(Violation(PROP, f"{unit['algo']}.search[{rep_kind}]", "foreign-exception",
+                                          {"exc": type(ex.exc).__name__, "at": exc_site(ex.exc), "rep": rep_kind},
+                                          {"unit": _clean(unit), "choices": list(ex.choices)}, f"{ctx.spec['name']}: {exc_brief(ex.exc)}"))
+            for p in progs:
+                r.count("fitness_function_arguments_checked")
+                errs = R.check_value(ctx.view, p, start_t, ctx.g, what=("type",))
+                tm = R.term(p)
+                if tm not in seen:
+                    seen.add(tm)
+                    if nontrivial(tm):
+                        r.nontrivial += 1
+                if errs:
+                    e = errs[0]
+                    r.add_violation(Violation(PROP, f"{unit['algo']}.search[{rep_kind}]", "fitness-function-got-ill-typed:" + e[0],
+                                              {"decl": e[3], "rep": rep_kind},
+                                              {"unit": _clean(unit), "choices": list(ex.choices), "program": R.show(tm)[:300]},
+                                              f"{ctx.spec['name']}: fitness function received {R.show(tm)[:120]}: at {e[1]}: {e[2]}"))
+        r.states = len(seen)
+        r.capped = st.capped_paths
+        r.truncated = st.truncated
+        if seen and len(r.samples) < 1:
+            r.samples.append({"grammar": ctx.spec["name"], "search": unit["algo"], "rep": rep_kind, "program": R.show(next(iter(seen)))[:120]})
+    finally:
+        ctx.bundle.cleanup()
+    return r
 
 
 def nontrivial(t) -> bool:
@@ -70,6 +170,8 @@ def nontrivial(t) -> bool:
 
 
 def run_unit(unit) -> UnitResult:
+    if unit["kind"] == "search":
+        return run_search(unit)
     r = UnitResult()
     ctx = P.open_ctx(unit)
     try:
